@@ -129,6 +129,7 @@ pub fn parse_conditions(it: &mut LexIterator) -> ParseResult<Vec<AST>> {
     let mut conditions = vec![];
 
     if it.eat_if(&Token::NL).is_some() {
+        it.eat_while(&Token::NL);
         it.eat(&Token::Indent, "conditions")?;
         it.eat_while(&Token::NL); // there may be blank lines before, between and after conditions
         it.peek_while_not_token(&Token::Dedent, &mut |it, _| {
